@@ -18,7 +18,8 @@ def single_arm(match):
 def flat_acceptance(ctx, rule, lname):
     """create(): the Shape::Single(size) arm accepts only perfect squares and reinterprets as (1, root, root)."""
     c = ctx.crate
-    fn = ctx.fn(LAYERS[lname] + "::create")
+    from ..hir import matchified
+    fn = matchified(ctx.fn(LAYERS[lname] + "::create"))
     ms = [x for x in walk(fn["body"]) if x.get("k") == "match" and single_arm(x)[0] is not None and "Shape" in e4.arm_variant(single_arm(x)[0])[0]]
     if not ms:
         raise Unestablished("%s::create has no Shape::Single arm" % lname, c.loc(fn))
@@ -69,7 +70,8 @@ def flat_acceptance(ctx, rule, lname):
 def flat_rechunk(ctx, rule, lname):
     """forward(): the Data::Single arm splits the vector with chunks_exact(h*w) then chunks_exact(w), (h, w) from self.inputs."""
     c = ctx.crate
-    fn = ctx.fn(LAYERS[lname] + "::forward")
+    from ..hir import matchified
+    fn = matchified(ctx.fn(LAYERS[lname] + "::forward"))
     ms = [x for x in walk(fn["body"]) if x.get("k") == "match" and single_arm(x)[0] is not None and "Data" in e4.arm_variant(single_arm(x)[0])[0]]
     if not ms:
         raise Unestablished("%s::forward has no Data::Single arm" % lname, c.loc(fn))
